@@ -93,6 +93,38 @@ class PathResult:
         self.trusted = set()
         self.solver_calls = 0
         self.notes = []
+        self.covered = set()
+
+
+DEAD_MS = int(os.environ.get('PYVC_DEAD_MS', '1500'))
+
+
+def statement_lines(fnode):
+    """line of every statement of the function itself (docstring and nested definitions' bodies excluded)"""
+    out = {}
+
+    def walk(stmts, top=False):
+        for i, s_ in enumerate(stmts):
+            if top and i == 0 and isinstance(s_, ast.Expr) and isinstance(s_.value, ast.Constant) and isinstance(s_.value.value, str):
+                continue
+            out[id(s_)] = s_.lineno
+            if isinstance(s_, (ast.FunctionDef, ast.AsyncFunctionDef, ast.ClassDef)):
+                continue
+            for f in ('body', 'orelse', 'finalbody'):
+                walk(getattr(s_, f, []) or [])
+            for h in getattr(s_, 'handlers', []) or []:
+                walk(h.body)
+    walk(fnode.body, top=True)
+    return out
+
+
+def statement_texts(ex):
+    lines = sorted(set(statement_lines(ex.node).values()))
+    try:
+        src = open(ex.file).read().split('\n')
+    except OSError:
+        src = []
+    return {ln: (src[ln - 1].strip() if 0 < ln <= len(src) else '') for ln in lines}
 
 
 def cut_positions(c, ex):
@@ -109,6 +141,7 @@ def run_path(reg, c, ex, decisions, segment=0):
     res = PathResult()
     fn = FnCtx(c.target, c, vars(ex.module))
     fn.loop_ids = loop_ids(ex.node)
+    fn.stmt_lines = statement_lines(ex.node)
     params = ex.node.args
     env = {}
     names = [a.arg for a in params.posonlyargs + params.args] + [a.arg for a in params.kwonlyargs]
@@ -259,6 +292,15 @@ def run_path(reg, c, ex, decisions, segment=0):
         else:
             res.outcome = 'unsupported'
             res.error = str(e)
+    if res.outcome in ('return', 'raise', 'cut') and DEAD_MS > 0:
+        # vacuity guard: a path whose path condition is contradictory proves nothing - it is dropped and does
+        # not count as reaching the statements it executed
+        r = solve.discharge(st.all_axioms(), st.pc, z3.BoolVal(False), DEAD_MS, want_model=False, use_cli=False)
+        if r.verdict == 'discharged':
+            res.outcome = 'dead'
+            st.obligations = []
+    if res.outcome in ('return', 'raise', 'cut'):
+        res.covered = set(fn.covered)
     res.obligations = st.obligations
     res.pending = st.pending
     res.assumptions = st.assumptions
@@ -285,6 +327,8 @@ class FnReport:
         self.solver_time = 0.0
         self.normal_paths = 0
         self.vacuity = {}
+        self.covered = set()
+        self.statements = {}
 
 
 def explore(reg, c, ex, prefixes, rep, timeout_ms=10000, budget=None, want_models=True, segment=0):
@@ -312,6 +356,7 @@ def explore(reg, c, ex, prefixes, rep, timeout_ms=10000, budget=None, want_model
                 rep.errors.append(res.error)
         rep.assumptions |= res.assumptions
         rep.trusted |= res.trusted
+        rep.covered |= res.covered
         rep.feas_calls += st.solver_calls
         rep.feas_time += getattr(st, 'feas_time', 0.0)
         for p in res.pending:
@@ -370,6 +415,7 @@ def merge_reports(a, b):
             a.errors.append(e)
     a.assumptions |= b.assumptions
     a.trusted |= b.trusted
+    a.covered |= b.covered
     a.solver_time += b.solver_time
     a.feas_calls += b.feas_calls
     a.feas_time += b.feas_time
@@ -404,6 +450,7 @@ def verify_function(reg, c, timeout_ms=10000, want_models=True, max_paths=MAX_PA
         return rep
     rep.dropped, rep.sha, rep.file = ex.dropped, ex.sha, ex.file
     rep.lines = (ex.node.lineno, ex.node.end_lineno)
+    rep.statements = statement_texts(ex)
     for seg in range(len(c.cuts) + 1):
         left = explore(reg, c, ex, [[]], rep, timeout_ms, budget=max_paths, want_models=want_models, segment=seg)
         if left:
@@ -473,6 +520,7 @@ def verify_parallel(files, targets, procs=16, timeout_ms=10000, budget=6, max_pa
             continue
         rep.dropped, rep.sha, rep.file = ex.dropped, ex.sha, ex.file
         rep.lines = (ex.node.lineno, ex.node.end_lineno)
+        rep.statements = statement_texts(ex)
         for seg in range(len(c.cuts) + 1):
             tasks.append((c.target, seg, [[]], timeout_ms, budget))
     t0 = time.time()
